@@ -10,6 +10,7 @@
    (a) "Setting a parameter on a parameter group sets it on every nested group that declares it, so a time
        window set at the top level applies to every drawn object"
          C19_setattr_declared, C19_setattr_frame, C19_setattr_undeclared, C19_setattr_spec, C19_setAt_declared,
+         C19_getitem, C19_setitem_getitem (item access `params[k]`),
          C19_window_everywhere, C19_postInit_window, C19_window_reaches_drawing, C19_top_level_window_drawn
    (b) "the obstacle shapes drawn are exactly the occupancies the model reports …"
          C19_shapes_iff_prescribed, C19_only_occupancies_drawn, C19_scenario_shapes, C19_nothing_iff_no_occupancy,
@@ -94,6 +95,30 @@ theorem C19_setAt_declared (g h h' : Grp) (p q : List String) (name : String) (v
     ∃ g' k, g.setAt name v p = some g' ∧ g'.at p = some (.grp k) ∧ k.at (q ++ [name]) = some v := by
   obtain ⟨g', e1, e2⟩ := setAt_at p g h name v hat
   exact ⟨g', h.set name v, e1, e2, C19_setattr_declared h h' q name v hi hq hat' hd⟩
+
+/-- `params[k]` (`BaseParam.__getitem__`) is the field `k`; `KeyError` exactly when the group has no such field. -/
+theorem C19_getitem (g : Grp) (k : String) :
+    (∀ v, g.getItem k = .ok v ↔ g.get k = some v) ∧ (g.getItem k = .error .key ↔ g.get k = none) := by
+  unfold Grp.getItem
+  cases h : g.get k <;> simp
+
+/-- `params[k] = v` (`BaseParam.__setitem__`) on a fully initialised group that declares `k`, for an admissible value:
+    it succeeds, `params[k]` then reads `v`, and every nested group that declares `k` holds `v` as well
+    (item assignment propagates exactly like attribute assignment). -/
+theorem C19_setitem_getitem (g : Grp) (k : String) (v : Val) (hi : g.allInit = true) (hd : g.declares k = true)
+    (hv : v.okFor k = true) :
+    ∃ g', g.setItem k v = .ok g' ∧ g'.getItem k = .ok v ∧
+      ∀ p h, k ∉ p → g.at p = some (.grp h) → h.declares k = true → g'.at (p ++ [k]) = some v := by
+  refine ⟨g.set k v, setPy_ok g k v hv, ?_, fun p h hp hat hd' => C19_setattr_declared g h p k v hi hp hat hd'⟩
+  have h0 := C19_setattr_declared g g [] k v hi (by simp) rfl hd
+  simp only [List.nil_append, Grp.at] at h0
+  unfold Grp.getItem
+  cases hg : (g.set k v).get k with
+  | none => simp [hg] at h0
+  | some w =>
+    cases w with
+    | atom a => simp [hg] at h0; simp [h0]
+    | grp h => simp [hg, Grp.at] at h0; simp [h0]
 
 /-- A time window set at the top level is the window of every nested group, at any depth. -/
 theorem C19_window_everywhere (g h : Grp) (p : List String) (tb te : String)
